@@ -322,7 +322,7 @@ Proof.
     eapply okx_of_get; eauto.
   - destruct (get_m s m) as [x|] eqn:Hx; auto.
     assert (Hok : okx s0 m x) by (eapply okx_of_get; eauto).
-    destruct (m_bad x).
+    destruct (nth (m_idx x) (m_bad x) false).
     + apply IH. apply MR_put_act; auto.
     + pose proof (MR_try_start m false s0 s x H Hok) as Ht.
       destruct (try_start s m x) as [s' cont]. cbn [fst] in Ht.
